@@ -183,7 +183,7 @@ Proof.
     destruct (Z.geb_spec (j - (nl + 3 + 2 * zlen (a_dims a))) bs); [lia|].
     assert (Hlt : (Z.to_nat (j - (nl + 3 + 2 * zlen (a_dims a))) < length (a_buf a))%nat) by (rewrite Hlen; fold bs; lia).
     rewrite (nth_error_nth_some _ _ Hlt). cbn [bind].
-    rewrite app_nth2 by (rewrite name_image_length; lia). rewrite name_image_length.
+    rewrite app_nth2 by (rewrite name_image_length; unfold zlen in *; lia). rewrite name_image_length.
     rewrite app_nth2 by (rewrite header_length; unfold zlen in *; lia). rewrite header_length.
     unfold bytes_ok in Hby. rewrite Forall_forall in Hby.
     pose proof (Hby _ (nth_In (a_buf a) 0 Hlt)) as B. unfold byte_ok in B.
@@ -208,7 +208,7 @@ Theorem peek_area st limit i : VInv st -> 0 <= i < v_scur st + a_cur (v_arr st) 
   peek st limit (v_start st + i) = Some (Ok (nth (Z.to_nat i) (area_image st) 0)).
 Proof.
   intros V Hi. pose proof (vi_arr st V) as A. unfold area_image.
-  pose proof (stotal_nonneg _ (vi_ok st V)) as T.
+  pose proof (stotal_nonneg _ (vi_ok st V)) as T. pose proof (vi_cur st V) as VC.
   destruct (Z.lt_ge_cases i (v_scur st)) as [C|C].
   - (* scalar part *)
     destruct (scalars_cover _ (v_start st) (v_start st + i) (vi_ok st V) (vi_laid st V)
@@ -222,9 +222,9 @@ Proof.
       by (rewrite flat_map_length_scalars by assumption; lia).
     rewrite nth_flat_map_at by (rewrite scalar_image_length by assumption; lia). reflexivity.
   - (* array part *)
-    set (b := base_of (v_arr st)).
+    pose proof (inv_cur _ A) as HC. set (b := base_of (v_arr st)) in *.
     destruct (arrays_cover b _ 0 (i - v_scur st) (inv_arrs _ A) (inv_layout _ A)
-                ltac:(rewrite <- (inv_cur _ A); lia)) as (l1 & a & l2 & E & Hp & Hr).
+                ltac:(lia)) as (l1 & a & l2 & E & Hp & Hr).
     assert (Hin : In a (a_list (v_arr st))) by (rewrite E; apply in_app_iff; right; left; reflexivity).
     pose proof (inv_arrs _ A) as F. fold b in F. rewrite E in F. apply Forall_app in F as [F1 F2].
     inversion F2 as [|? ? Ha F2']; subst.
